@@ -214,11 +214,15 @@ class Extract:
                     raise LostAnchor(f"{self.file}::{self.fn}: inject anchor `{inj['anchor']}` #{inj['k']} not found ({len(hits)} hits)")
                 i = hits[inj["k"] - 1]
             if inj["where"] == "blockend":
-                # before the closing brace of the block opened by the LAST `{` of the anchor line
+                # before the closing brace of the block that the anchor line opens and leaves open
                 lstart, lend = offs[i], offs[i] + len(body_lines[i])
-                ob2 = bm.rfind("{", lstart, lend)
-                if ob2 < 0:
+                stack = []
+                for q0 in range(lstart, lend):
+                    if bm[q0] == "{": stack.append(q0)
+                    elif bm[q0] == "}" and stack: stack.pop()
+                if not stack:
                     raise UnitError("inject blockend: anchor line must open a block")
+                ob2 = stack[-1]     # the last brace opened on the anchor line and still open at its end
                 depth, q = 0, ob2
                 while q < len(bm):
                     if bm[q] == "{": depth += 1
